@@ -22,6 +22,7 @@ values are damped (coefficients < 1).
 construct with a suspected/known defect mechanism (see HAZARDS); hazards are only generated on request.
 """
 # pylint: disable=too-many-lines,too-many-branches,too-many-locals,too-many-statements,too-many-instance-attributes
+import re
 from dataclasses import dataclass, field
 
 HAZARDS = {
@@ -31,7 +32,10 @@ HAZARDS = {
     'dt_alloc_lbound': 'allocatable member allocated with lower bound 0 and indexed from 0 in the kernel',
     'dt_allocated_inq': 'kernel asks ALLOCATED(member)',
     'dt_seq_element': 'element of an allocatable component of a dummy as sequence-associated actual in a kernel',
-    'dt_func_kw': 'function kernel referenced with a keyword derived-type actual',
+    'dt_func_kw': 'function kernel referenced with a keyword derived-type actual (fparser then yields a '
+                  'Structure_Constructor; so does a bare real literal actual: parenthesised outside this slice)',
+    'dt_func_modimport': 'function kernel of another module imported in the specification part of the calling '
+                         "routine's module (outside this slice the import is written inside the calling routine)",
     # tb
     'tb_nested_function': 'type-bound function reference (always forced on a nested member a%b%fun(), also direct d%fun())',
     'tb_generic': 'call through a generic type-bound binding',
@@ -678,7 +682,8 @@ class SigGen:
             # keyword actuals in a *function* reference are the hazard dt_func_kw
             kw = f['kw_calls'] and rng.random() < 0.3 and not child.is_function
             kwstart = rng.randint(2, len(child.args)) if kw else 10 ** 6
-            if child.is_function and self.hz == 'dt_func_kw' and any(a.cat == 'dt' for a in child.args):
+            hz_here = child.is_function and self.hz == 'dt_func_kw' and any(a.cat == 'dt' for a in child.args)
+            if hz_here:
                 kw, kwstart = True, 2
                 self.hz_done = True
             pos = 0
@@ -700,6 +705,11 @@ class SigGen:
                 if not hasattr(child, 'caller'):
                     child.caller = r.name
             cname = child.name
+            if child.is_function and not hz_here and any(t.count('%') >= 2 for t in argtxt):
+                # a bare real literal actual makes fparser match the reference as Structure_Constructor, in which
+                # Loki's frontend drops the root of a nested component actual (d%a%b ->  a%b): same root cause as
+                # hazard dt_func_kw, kept in that slice; elsewhere the literal is written as a parenthesised expression
+                argtxt = [f'({t})' if re.fullmatch(r'\d+\.\d*\w*', t) else t for t in argtxt]
             if child.is_function:
                 w0 = [o for o in objs if o.kind == 'real' and o.rank == 0 and o.writable
                       and not any(conflict(o.path, t[1]) for _, t in acts)]
@@ -1215,6 +1225,17 @@ class SigGen:
             if om == mod:
                 continue
             names = [c for c in called if any(k.name == c and k.module == om for k in kernels) or (c == 'hzk' and om == 'kmod')]
+            funcs = [c for c in names if any(k.name == c and k.is_function for k in kernels)]
+            if funcs and self.hz == 'dt_func_modimport':
+                self.hz_done = True
+            elif funcs:
+                # a function imported in the specification part of the enclosing module is not discovered as a
+                # Scheduler dependency of the referencing routine (hazard dt_func_modimport): import it where used
+                names = [c for c in names if c not in funcs]
+                for r in routines:
+                    mine = [c for c in funcs if c in r.calls]
+                    if mine:
+                        r.extra_use.append(f'use {om}, only: {", ".join(mine)}')
             if names:
                 L.append(f'  use {om}, only: {", ".join(names)}')
         L.append('  implicit none')
